@@ -182,11 +182,11 @@ class Validator(SchemaVisitor[ValidationResult]):
                     return result.add_error(ValueValidationError(path, value, schema.props.value))
 
         if schema.props.min is not Nil:
-            if value < schema.props.min:
+            if not (value >= schema.props.min):
                 result.add_error(MinValueValidationError(path, value, schema.props.min))
 
         if schema.props.max is not Nil:
-            if value > schema.props.max:
+            if not (value <= schema.props.max):
                 result.add_error(MaxValueValidationError(path, value, schema.props.max))
 
         return result
